@@ -120,11 +120,23 @@ def direct_cases(ctx, tab):
                 ctx.branches["direct/after-custom-coefficients"] += 1
             cal = Calibrator(sat)
             corr = rng.choice(["1", "1", "0.9666", "1.0334", "0.98765"])
-            arr = np.repeat(counts[:, None, None], 3, axis=2).copy()
             import warnings
+            # a DIM scene as well: all three channels calibrated together (as the reader does) on a block whose brightest
+            # count lies around the gain switches (495..505) - a pixel's value must not depend on the rest of the block
+            dim_max = rng.randint(494, 506)
+            with warnings.catch_warnings():
+                warnings.simplefilter("ignore")
+                dim = calibrate_solar(np.repeat(counts[:dim_max + 1, None, None], 3, axis=2).copy(), np.arange(3), year, jday, cal, float(corr))
+            arr = np.repeat(counts[:, None, None], 3, axis=2).copy()
             with warnings.catch_warnings():
                 warnings.simplefilter("ignore")
                 got = calibrate_solar(arr, np.arange(3), year, jday, cal, float(corr))
+            if not np.array_equal(dim, got[:dim_max + 1], equal_nan=True):
+                i, _, c_ = np.argwhere(~((dim == got[:dim_max + 1]) | (np.isnan(dim) & np.isnan(got[:dim_max + 1]))))[0]
+                ctx.violation("%s %d/%03d: count %d of channel index %d is %.6f in a block whose brightest count is %d and %.6f in a "
+                              "block reaching 1023" % (sat, year, jday, i, c_, dim[i, 0, c_], dim_max, got[i, 0, c_]),
+                              {"sat": sat, "chan": int(c_), "year": year, "jday": jday, "corr": corr, "dim_max": dim_max}, cls="solar-block-dependent")
+            ctx.case((sat, year, jday, corr, "dim", dim_max), nontrivial=True, branch="direct/dim-scene")
             for chan in range(3):
                 g = got[:, 0, chan]
                 want, t = oracle(tab[sat], chan, year, jday, Fraction(corr), range(1024))
